@@ -333,7 +333,6 @@ int *hops;
         break;
       case 3: /* \r\n + .\r */
         if (ch == '\n') return;
-        put(".");
         put("\r");
         if (ch == '\r') { state = 4; continue; }
         state = 0;
